@@ -72,6 +72,8 @@ def lower_unit(u, outdir):
                 f.truncate_after = t['truncate_after']
             if t.get('skeleton'):
                 f.skeleton = True
+            if t.get('keep_from_call'):
+                f.keep_from_call = t['keep_from_call']
             if t.get('keep_until'):
                 f.keep_until = tuple(t['keep_until'])
                 f.export_locals = t.get('export_locals', [])
